@@ -65,6 +65,12 @@ func genC06(r *sim.Rand, tier string) *sim.Program {
 			case 3:
 				// constructive: the pair for which [s]G + [t]P is the point at infinity (only the key holder can build it)
 				p.Add("infinity", r.Intn(1<<30))
+			case 4:
+				if r.Chance(1, 2) {
+					p.Add("rekey", r.Intn(1<<30), r.Intn(2))
+				} else {
+					p.Add("sign", r.Intn(3), r.Intn(1<<30)).WithB(r.Bytes(uidLen()), r.Bytes(r.PickInt(0, 1, 32, 33, 100, 300)))
+				}
 			default:
 				p.Add("sign", r.Intn(3), r.Intn(1<<30)).WithB(r.Bytes(uidLen()), r.Bytes(r.PickInt(0, 1, 32, 33, 100, 300)))
 			}
@@ -284,6 +290,49 @@ func execC06(t *testing.T, p *sim.Program, c *sim.Ctx) {
 			sg := &c06Sig{uid: uid, msg: msg, e: e[:], sig: sig}
 			sigs = append(sigs, sg)
 			deliver(i, "sign", &priv.PublicKey, pub, uid, msg, sig)
+			continue
+		}
+		if op.K == "rekey" {
+			// ONE key object used with another key first (which fills whatever the object caches per key) and then given
+			// this run's key through the exported FromECPrivateKey: it must sign as this run's key from then on
+			if kk > 2 {
+				continue
+			}
+			c.Abs("rekey", op.Int(1)&1)
+			c.Hit("probe:key-object-rekeyed")
+			obj := new(sm2.PrivateKey)
+			if _, err := obj.FromECPrivateKey(&other.PrivateKey); err != nil {
+				c.Fail("setup", i, op.K, "FromECPrivateKey: %v", err)
+				return
+			}
+			warm := derive(append([]byte(fmt.Sprint(op.Int(0))), p.CB("d")...), "rekey warm", 64)
+			warm[0] &= 0x7f
+			if _, err := obj.SignWithSM2(&sim.ScriptReader{Data: warm, Fill: 5, Step: 3}, nil, []byte("warm")); err != nil {
+				c.Fail("sign-failed", i, op.K, "signing with the first key of the object failed: %v", err)
+				return
+			}
+			if _, err := obj.FromECPrivateKey(&priv.PrivateKey); err != nil {
+				c.Fail("setup", i, op.K, "FromECPrivateKey (second key): %v", err)
+				return
+			}
+			nonce := derive(append([]byte(fmt.Sprint(op.Int(0))), p.CB("d")...), "rekey nonce", 64)
+			nonce[0] &= 0x7f
+			msg := []byte("after re-keying")
+			sig, err := obj.SignWithSM2(&sim.ScriptReader{Data: nonce, Fill: 5, Step: 3}, nil, msg)
+			c.OutErr("rekey-sign", err)
+			if err != nil {
+				c.Fail("sign-failed", i, op.K, "signing after FromECPrivateKey gave the object another key failed: %v", err)
+				return
+			}
+			c.Out("sig", sig)
+			za := sm2m.ZA(sm2m.DefaultUID, pub)
+			e := sm2m.DigestE(za, msg)
+			r, s2, ok := sm2m.ParseStrictDERSig(sig)
+			if !ok || !sm2m.VerifyRS(pub, e[:], r, s2) {
+				c.Fail("honest-signature-invalid", i, op.K, "a key object that had signed with another key and was then given this key through FromECPrivateKey produces a signature that does not satisfy the equation under this key")
+				return
+			}
+			deliver(i, "rekeyed-object", &priv.PublicKey, pub, nil, msg, sig)
 			continue
 		}
 		if op.K == "tzero" {
